@@ -313,4 +313,157 @@ theorem bulk_rot (θ0 : ℝ) (om df : List ℝ) (D : List (Fin N → ℝ)) (k : 
       congr 1
       exact Fintype.sum_equiv (Equiv.subRight k) _ _ (fun j => by simp [rotE])
 
+
+/-! ### the wind-speed inversion -/
+
+theorem zipWith2_field_scalar {β : Type} (G : List ℝ × List ℝ → β → ℝ) (F : (Fin N → ℝ) × (Fin N → ℝ) → β → ℝ)
+    (h : ∀ r1 r2 b, G (List.ofFn r1, List.ofFn r2) b = F (r1, r2) b) (R1 R2 : List (Fin N → ℝ)) (bs : List β) :
+    List.zipWith G ((fieldOf R1).zip (fieldOf R2)) bs = List.zipWith F (R1.zip R2) bs := by
+  simp only [fieldOf]
+  induction R1 generalizing R2 bs with
+  | nil => simp
+  | cons r R1 ih =>
+    cases R2 with
+    | nil => simp
+    | cons r2 R2 =>
+      cases bs with
+      | nil => simp
+      | cons b bs => simp only [List.map_cons, List.zip_cons_cons, List.zipWith_cons_cons, ih R2 bs, h]
+
+theorem activeRegion_rot (θ0 : ℝ) (om df : List ℝ) (D G : List (Fin N → ℝ)) (k : Fin N) :
+    activeRegionDerivative (uniformGrid (N := N) θ0 om df) (fieldOf (rotField k D)) (fieldOf (rotField k G))
+      = activeRegionDerivative (uniformGrid (N := N) θ0 om df) (fieldOf D) (fieldOf G) := by
+  have h : ∀ A B : List (Fin N → ℝ),
+      List.zipWith (fun (rows : List ℝ × List ℝ) (f : ℝ) =>
+          lsum (List.zipWith (fun (dg : ℝ × ℝ) (dth : ℝ) => if 0 < dg.2 then dg.1 * dth * f else 0)
+            (rows.1.zip rows.2) (List.ofFn fun _ : Fin N => dθ N)))
+        ((fieldOf A).zip (fieldOf B)) df
+      = List.zipWith (fun (r : (Fin N → ℝ) × (Fin N → ℝ)) (f : ℝ) => ∑ j, if 0 < r.2 j then r.1 j * dθ N * f else 0) (A.zip B) df := by
+    intro A B
+    apply zipWith2_field_scalar
+    intro r1 r2 f
+    rw [List.zip, zipWith_ofFn, zipWith_ofFn, st_lsum_ofFn]
+  simp only [activeRegionDerivative, uniformGrid, h]
+  congr 1
+  simp only [rotField]
+  generalize df = F
+  induction D generalizing G F with
+  | nil => simp
+  | cons r D ih =>
+    cases G with
+    | nil => simp
+    | cons r2 G =>
+      cases F with
+      | nil => simp
+      | cons f F =>
+        simp only [List.map_cons, List.zip_cons_cons, List.zipWith_cons_cons, ih G F]
+        congr 1
+        exact Fintype.sum_equiv (Equiv.subRight k) _ _ (fun j => by simp only [rotE, Equiv.subRight_apply]; rfl)
+
+theorem balanceTotal_rot (nan : ℝ) (p : GenP ℝ) (θ0 : ℝ) (om df : List ℝ) (kin : Kin ℝ) (rows : List (Fin N → ℝ))
+    (w : Wind ℝ) (k : Fin N) :
+    balanceTotal nan rfloor p (uniformGrid (N := N) θ0 om df) kin (fieldOf (rotField k rows)) (turnWind k w)
+      = balanceTotal nan rfloor p (uniformGrid (N := N) θ0 om df) kin (fieldOf rows) w := by
+  funext lz
+  simp only [balanceTotal, stressBalance_rot]
+
+theorem roughnessOf_rot (nan : ℝ) (p : GenP ℝ) (θ0 : ℝ) (om df : List ℝ) (kin : Kin ℝ) (rows : List (Fin N → ℝ))
+    (w : Wind ℝ) (guess : ℝ) (k : Fin N) :
+    roughnessOf nan rfloor p (uniformGrid (N := N) θ0 om df) kin (fieldOf (rotField k rows)) (turnWind k w) guess
+      = roughnessOf nan rfloor p (uniformGrid (N := N) θ0 om df) kin (fieldOf rows) w guess := by
+  have hg : roughnessGuess p (turnWind k w) guess = roughnessGuess p w guess := rfl
+  have hs : (turnWind k w).speed = w.speed := rfl
+  simp only [roughnessOf, roughness, balanceTotal_rot, hg, hs]
+
+/-- **the balance function of the wind inversion is unchanged by a joint rotation** of the spectrum,
+the supplied rate of change and the wind direction -/
+theorem u10Balance_rot (nan : ℝ) (p : GenP ℝ) (θ0 : ℝ) (om df : List ℝ) (kin : Kin ℝ) (rows dEdt : List (Fin N → ℝ))
+    (dir target : ℝ) (k : Fin N) :
+    u10Balance nan rfloor p (uniformGrid (N := N) θ0 om df) kin (fieldOf (rotField k rows)) (dir + (k : ℕ) * dθ N) target
+        (fieldOf (rotField k dEdt))
+      = u10Balance nan rfloor p (uniformGrid (N := N) θ0 om df) kin (fieldOf rows) dir target (fieldOf dEdt) := by
+  funext u
+  simp only [u10Balance]
+  split
+  · rfl
+  · have hw : ({ speed := u, dirDeg := dir + (k : ℕ) * dθ N, isU10 := true } : Wind ℝ)
+        = turnWind k { speed := u, dirDeg := dir, isU10 := true } := rfl
+    rw [hw, roughnessOf_rot]
+    cases roughnessOf nan rfloor p (uniformGrid (N := N) θ0 om df) kin (fieldOf rows) { speed := u, dirDeg := dir, isU10 := true } (-1) with
+    | none => rfl
+    | some z0 =>
+      obtain ⟨S, hS, hS'⟩ := st4Input_turn p θ0 om df kin rows { speed := u, dirDeg := dir, isU10 := true } z0 k
+      simp only [hS, hS', bulk_rot, activeRegion_rot]
+
+/-- hence the estimated wind speed is unchanged and the reported direction moves with the guess -/
+theorem u10Estimate_rot (nan : ℝ) (p : GenP ℝ) (θ0 : ℝ) (om df : List ℝ) (kin : Kin ℝ) (rows dEdt : List (Fin N → ℝ))
+    (dir target bulkRate guess : ℝ) (k : Fin N) :
+    u10FromBulkRate (u10Balance nan rfloor p (uniformGrid (N := N) θ0 om df) kin (fieldOf (rotField k rows))
+        (dir + (k : ℕ) * dθ N) target (fieldOf (rotField k dEdt))) bulkRate guess (dir + (k : ℕ) * dθ N)
+      = ((u10FromBulkRate (u10Balance nan rfloor p (uniformGrid (N := N) θ0 om df) kin (fieldOf rows) dir target (fieldOf dEdt))
+          bulkRate guess dir).1, dir + (k : ℕ) * dθ N) := by
+  rw [u10Balance_rot]
+  simp only [u10FromBulkRate]
+  split <;> rfl
+
+
+/-! ### dissipation-weighted direction -/
+
+theorem IsRot.neg {φ : ℝ} {a a' : ℝ × ℝ} (ha : IsRot φ a a') : IsRot φ (-a.1, -a.2) (-a'.1, -a'.2) := by
+  obtain ⟨h1, h2⟩ := ha
+  constructor <;> simp only [h1, h2] <;> ring
+
+theorem diss_inner_bridge (θ0 kk f : ℝ) (d : Fin N → ℝ) :
+    lsum (List.zipWith (fun (d : ℝ) (td : ℝ × ℝ) => kk * Transc.cos td.1 * d * f * td.2) (List.ofFn d)
+      ((List.ofFn fun j : Fin N => deg2rad (theta θ0 j)).zip (List.ofFn fun _ : Fin N => dθ N))) = Acos 1 θ0 d * (kk * f) ∧
+    lsum (List.zipWith (fun (d : ℝ) (td : ℝ × ℝ) => kk * Transc.sin td.1 * d * f * td.2) (List.ofFn d)
+      ((List.ofFn fun j : Fin N => deg2rad (theta θ0 j)).zip (List.ofFn fun _ : Fin N => dθ N))) = Bsin 1 θ0 d * (kk * f) := by
+  constructor
+  · rw [List.zip, zipWith_ofFn, zipWith_ofFn, st_lsum_ofFn, Acos, Finset.sum_mul]
+    apply Finset.sum_congr rfl
+    intro j _
+    show kk * Real.cos (deg2rad (theta θ0 j)) * d j * f * dθ N = _
+    rw [cos_deg2rad]; ring
+  · rw [List.zip, zipWith_ofFn, zipWith_ofFn, st_lsum_ofFn, Bsin, Finset.sum_mul]
+    apply Finset.sum_congr rfl
+    intro j _
+    show kk * Real.sin (deg2rad (theta θ0 j)) * d j * f * dθ N = _
+    rw [sin_deg2rad]; ring
+
+/-- the dissipation-weighted wavenumber vector rotates with the field -/
+theorem dissipationVector_rot (θ0 : ℝ) (om df : List ℝ) (kin : Kin ℝ) (D : List (Fin N → ℝ)) (k : Fin N) :
+    IsRot ((k : ℕ) * dθ N) (dissipationVector (uniformGrid (N := N) θ0 om df) kin (fieldOf D))
+      (dissipationVector (uniformGrid (N := N) θ0 om df) kin (fieldOf (rotField k D))) := by
+  simp only [dissipationVector, uniformGrid]
+  apply IsRot.neg (a := (_, _)) (a' := (_, _))
+  have hc : ∀ rows : List (Fin N → ℝ), List.zipWith (fun (row : List ℝ) (kd : ℝ × ℝ) =>
+        lsum (List.zipWith (fun (d : ℝ) (td : ℝ × ℝ) => kd.1 * Transc.cos td.1 * d * kd.2 * td.2) row
+          ((List.ofFn fun j : Fin N => deg2rad (theta θ0 j)).zip (List.ofFn fun _ : Fin N => dθ N))))
+        (fieldOf rows) (kin.k.zip df)
+      = List.zipWith (fun (r : Fin N → ℝ) (kd : ℝ × ℝ) => Acos 1 θ0 r * (kd.1 * kd.2)) rows (kin.k.zip df) :=
+    fun rows => zipWith_field_scalar _ _ (fun r m => (diss_inner_bridge θ0 _ _ r).1) rows _
+  have hs : ∀ rows : List (Fin N → ℝ), List.zipWith (fun (row : List ℝ) (kd : ℝ × ℝ) =>
+        lsum (List.zipWith (fun (d : ℝ) (td : ℝ × ℝ) => kd.1 * Transc.sin td.1 * d * kd.2 * td.2) row
+          ((List.ofFn fun j : Fin N => deg2rad (theta θ0 j)).zip (List.ofFn fun _ : Fin N => dθ N))))
+        (fieldOf rows) (kin.k.zip df)
+      = List.zipWith (fun (r : Fin N → ℝ) (kd : ℝ × ℝ) => Bsin 1 θ0 r * (kd.1 * kd.2)) rows (kin.k.zip df) :=
+    fun rows => zipWith_field_scalar _ _ (fun r m => (diss_inner_bridge θ0 _ _ r).2) rows _
+  rw [hc, hc, hs, hs]
+  apply lsum_rows_rot
+  intro r m
+  have h := stress_rot θ0 k r
+  simp only [stressEast, stressNorth] at h
+  constructor
+  · show Acos 1 θ0 (rotE k r) * _ = _
+    rw [h.1]; ring
+  · show Bsin 1 θ0 (rotE k r) * _ = _
+    rw [h.2]; ring
+
+/-- the direction of a rotated vector, as an angle modulo a full turn -/
+theorem IsRot.dirAngle {φ : ℝ} {a a' : ℝ × ℝ} (ha : IsRot φ a a') (h : a.1 ≠ 0 ∨ a.2 ≠ 0) :
+    dirAngle a'.1 a'.2 = dirAngle a.1 a.2 + ((φ * π / 180 : ℝ) : Real.Angle) := by
+  obtain ⟨h1, h2⟩ := ha
+  rw [h1, h2]
+  exact dirAngle_rot a.1 a.2 (φ * π / 180) h
+
 end Osu.Rot
